@@ -120,7 +120,9 @@ func genSys(r *crsgen.R) *sys {
 			name string
 			f    float64
 		}{{"Clarke's foot", 0.3047972654}, {"Gold Coast foot", 0.3047997101815088}, {"Indian foot", 0.3047995}, {"Sears_foot", 0.30479947153867626},
-			{"British foot (1936)", 0.3048007491}, {"US survey feet (rounded)", 0.3048006}, {"Clarke's link", 0.201166195164}, {"kilometre", 1000}, {"Verif unit", r.Range(0.1, 5)}}[r.Intn(9)]
+			{"British foot (1936)", 0.3048007491}, {"US survey feet (rounded)", 0.3048006}, {"Clarke's link", 0.201166195164}, {"kilometre", 1000}, {"Verif unit", r.Range(0.1, 5)},
+			// the standard names with the other foot's factor (such .prj files exist): the declared factor decides
+			{"Foot", 0.3048006096012192}, {"Foot_US", 0.3048}, {"US survey foot", 0.3048}, {"foot", 0.30480061}, {"metre", 0.3048}}[r.Intn(14)]
 		unitWKT, unit4, s.toMeter = `UNIT["`+u.name+`",`+F(u.f)+`]`, " +to_meter="+F(u.f), u.f
 		s.otherUnit = true
 	case 0:
